@@ -70,8 +70,24 @@ class Rx:
         midi_invariants(it)
         return it
 
-    def receiver(self, it, st, gate=None, rising=None, falling=None, retrig=None, prio=None, list_len=None):
+    def receiver(self, it, st, gate=None, rising=None, falling=None, retrig=None, prio=None, list_len=None, class_inv=False):
+        """class_inv: restrict the pre-state to the class invariant established by R-HELD-INV / R-EDGE-INV and re-checked by
+        R-INV (gate <=> list non-empty, rising => gate, falling => !gate, held / selected note numbers <= 127); needs a definite length class"""
         rx = it.sym_value(st, adt_ty(RX), 'self')
+        if class_inv and list_len is not None:
+            lo_, hi_ = list_len
+            if hi_ == 0:
+                gate, rising = False, False
+            elif lo_ >= 1:
+                gate, falling = True, False
+            # held notes and the selected note are 7-bit note numbers (they come out of midi_types::Note)
+            lst0 = rx.get('held_down_notes')
+            if isinstance(lst0, ContV):
+                st.ctx.elem_bounds[lst0.term] = (Fr(0), Fr(127))
+            nn = rx.get('note_num')
+            if isinstance(nn, Num) and nn.term.as_single_atom() is not None:
+                st.ctx.ranges[nn.term.as_single_atom()] = (Fr(0), Fr(127))
+
         ch = rx.get('channel')
         st.ctx.ranges[ch.term.as_single_atom()] = (Fr(0), Fr(15))
 
